@@ -238,18 +238,92 @@ theorem load_keeps_registered_ids (cur : PDict Int Node) (fs : Persist.FileState
     · simp only [Except.ok.injEq] at h; subst h; exact hk
     · split at h <;> simp at h
 
+/-- The registry a `load` leaves behind: the loop `for node_data in data.values(): … self.nodes[id] = node` has
+already stored every entry BEFORE the one that fails, and the `except` clause does not undo that. -/
+def loadNodesPartial (acc : PDict Int Node) : List (Str × Json) → PDict Int Node
+  | [] => acc
+  | (_, v) :: rest =>
+    match Schema.loadNode v with
+    | .ok (id, n) => loadNodesPartial (acc.set id n) rest
+    | .error _ => acc
+
+/-- The registry after `Persistence.load`, whether it returned or raised. -/
+def registryAfterLoad (cur : PDict Int Node) (fs : Persist.FileState) : PDict Int Node :=
+  match Persist.readFile fs with
+  | .ok (.obj kvs) => loadNodesPartial cur kvs
+  | _ => cur
+
+theorem loadNodesPartial_ok : ∀ (kvs : List (Str × Json)) (acc r : PDict Int Node),
+    Persist.loadNodes acc kvs = .ok r → loadNodesPartial acc kvs = r := by
+  intro kvs
+  induction kvs with
+  | nil => intro acc r h; simpa [Persist.loadNodes, loadNodesPartial] using h
+  | cons x xs ih =>
+    intro acc r h
+    obtain ⟨key, v⟩ := x
+    simp only [Persist.loadNodes] at h
+    simp only [loadNodesPartial]
+    split at h
+    · next id n hv => rw [hv]; exact ih _ _ h
+    · simp at h
+
+theorem loadNodesPartial_keeps (k : Int) : ∀ (kvs : List (Str × Json)) (acc : PDict Int Node),
+    acc.has k = true → (loadNodesPartial acc kvs).has k = true := by
+  intro kvs
+  induction kvs with
+  | nil => intro acc hk; exact hk
+  | cons x xs ih =>
+    intro acc hk
+    obtain ⟨key, v⟩ := x
+    simp only [loadNodesPartial]
+    split
+    · next id n _ => exact ih _ (has_set_mono acc id k n hk)
+    · exact hk
+
+/-- When `load` returns normally, `registryAfterLoad` is the registry it returns. -/
+theorem registryAfterLoad_ok (cur : PDict Int Node) (fs : Persist.FileState) (res : Persist.Loaded)
+    (h : Persist.loadFile cur fs = .ok res) : registryAfterLoad cur fs = res.nodes := by
+  simp only [Persist.loadFile] at h
+  simp only [registryAfterLoad]
+  split at h
+  · next j hj =>
+    rw [hj]
+    simp only [Persist.loadInto, Persist.mapRead] at h
+    split at h
+    · next r hr =>
+      simp only [Except.ok.injEq] at h; subst h
+      split at hr
+      · next r' hr' =>
+        simp only [Except.ok.injEq] at hr; subst hr
+        cases j <;> simp only [Persist.loadRaw] at hr' <;> first
+          | exact loadNodesPartial_ok _ _ _ hr'
+          | simp at hr'
+      · split at hr <;> simp at hr
+    · simp at h
+  · next c hc =>
+    rw [hc]
+    split at h
+    · simp only [Except.ok.injEq] at h; subst h; rfl
+    · split at h <;> simp at h
+
+/-- **Any load — returning or raising — keeps every registered id.** -/
+theorem registryAfterLoad_keeps (cur : PDict Int Node) (fs : Persist.FileState) (k : Int) (hk : cur.has k = true) :
+    (registryAfterLoad cur fs).has k = true := by
+  simp only [registryAfterLoad]
+  split
+  · exact loadNodesPartial_keeps k _ _ hk
+  · exact hk
+
 /-- One event in the life of a gateway object: traffic, or a load of whatever is at the path (on entering the context
-again, or called by the application).  A load that raises leaves the model's registry as it was. -/
+again, or called by the application).  A load that raises half-way has still stored the entries before the failing one
+(`registryAfterLoad`); a load that returns leaves what `Persist.loadFile` returns (`registryAfterLoad_ok`). -/
 inductive LifeOp where
   | gw (op : Op)
   | load (fs : Persist.FileState)
 
 def lifeStep (st : St) : LifeOp → St
   | .gw op => (stepOp st op).1
-  | .load fs =>
-    match Persist.loadFile st.nodes fs with
-    | .ok res => { st with nodes := res.nodes }
-    | .error _ => st
+  | .load fs => { st with nodes := registryAfterLoad st.nodes fs }
 
 def lifeAfter (st : St) (ops : List LifeOp) : St := ops.foldl lifeStep st
 
@@ -263,11 +337,7 @@ theorem keys_monotone_life (ops : List LifeOp) (st : St) (k : Int) (h : st.nodes
     | gw o =>
       have := keys_monotone_history [o] st k h
       simpa [lifeStep, stateAfter, run] using this
-    | load fs =>
-      simp only [lifeStep]
-      split
-      · next res hres => exact load_keeps_registered_ids st.nodes fs res k hres h
-      · exact h
+    | load fs => exact registryAfterLoad_keeps st.nodes fs k h
 
 /-- **Never twice, over the whole life of the object** — sessions, reloads of any file (also one that lacks the id,
 was replaced, or is damaged) and traffic in any order. -/
